@@ -21,7 +21,7 @@ def run(tier):
                       "thread from an odd address (same digest required) and drives the lookup helpers / glyph loading of the "
                       "damaged font on every 8th. CmapIter.tla (clamping rule of the cmap 4 / 12 iterators: strictly ascending yields for every "
                       "list of <= 3 overlapping / contained / descending groups) and PackedHostile.tla (every packed-delta stream of "
-                      "<= 3 control/data bytes behind private point lists) enumerate hostile inputs for two hand-written decoders; "
+                      "<= 3 control/data bytes behind private point lists) enumerate hostile inputs for two hand-written decoders, and Index.tla (the CFF INDEX reader: every small count x offset size x offset array incl. backwards / zero / out-of-data offsets, complete and cut short, with the answers for get(0..count+1)) for a third; "
                       "the raw tables are iterated by the real code under a deadline.")
     ck.assumptions = ["tables are exercised through the instances that occur in the corpus (evidence: tables_seen); CFF/CFF2 have "
                       "no traversal impl and are reached through glyph loading only",
@@ -94,6 +94,24 @@ def run(tier):
         ck.cov["traces_validated_against_impl"] += info.get("events", 0)
     else:
         ck.violation("ReadTrace rejected a decoder observation: %s" % info.get("rejected", "")[:1200], {"kind": "read-trace", "trace": t5})
+    # the CFF INDEX reader (hand-written offset arithmetic): Index.tla's hostile byte strings and answers
+    vlib.stage_specs(wd, "cff")
+    r = vlib.run_tlc(wd, "IndexMC", cfg="IndexMC.cfg", workers=4, timeout=900)
+    ck.add_tlc("tlc:Index", r)
+    if not r.ok:
+        ck.spec_error("IndexMC", r)
+    t6 = os.path.join(wd, "index.ndjson")
+    res = vlib.run_harness("fv-total", ["cs", "index", "--cases", r.out, "--out", t6])
+    ck.add_harness("replay:index", res, traces=False)
+    os.remove(r.out)
+    ok, info = vlib.validate_trace(wd, "CharstringTrace", t6, timeout=1800)
+    ck.cov["parts"]["validate:index"] = info
+    if ok:
+        ck.cov["traces_validated_against_impl"] += info.get("events", 0)
+    else:
+        keep = os.path.join(vlib.REPLAYS, "C01-trace-index.ndjson")
+        shutil.copy(t6, keep)
+        ck.violation("CharstringTrace rejected an INDEX observation: %s" % info.get("rejected", "")[:1200], {"kind": "index-trace", "trace": keep})
     return ck.finish()
 
 
